@@ -667,10 +667,6 @@ open container. With C03's `endData_is_flush`/`build_refines` this holds in ever
 section parser
 open BS.Builder
 
-/-- the configuration C03's machine sees for a `string_containers` table -/
-def builderCfg (cont : List (PStr × StrClass)) (preserve : Name → Bool) (ascii : List Nat) (root : Name) : Cfg :=
-  { preserve := preserve, container := fun n => (cont.lookup n).map StrClass.code, asciiSpaces := ascii, rootName := root }
-
 theorem classFor_eq_stringContainer (cont : List (PStr × StrClass)) (preserve : Name → Bool) (ascii : List Nat)
     (root : Name) (stack : List Frame) :
     classFor (builderCfg cont preserve ascii root) stack none =
